@@ -50,6 +50,9 @@ func weightsFor(profile string) map[string]int {
 		}
 		base["cancel_pair"] = 5
 		base["batch_race"] = 7
+		if profile == "C13" || profile == "C04" {
+			base["timeout_inversion"] = 4
+		}
 		base["user_send"] = 20
 		base["user_cancel"] = 8
 		base["req_batch"] = 8
@@ -71,6 +74,7 @@ func weightsFor(profile string) map[string]int {
 		base["stake"] = 6
 		base["ext_deposit"] = 14
 	case "C09":
+		base["set_keys"] = 3
 		base["valset_lag"] = 3
 		base["stake"] = 14
 		base["block"] = 30
@@ -100,11 +104,13 @@ func weightsFor(profile string) map[string]int {
 		base["ext_deposit"] = 10
 		base["stake"] = 4
 	case "C06":
+		base["set_keys"] = 2
 		base["xchain_expire"] = 4
 		base["gov"] = 4
 		base["node_restart"] = 4
 		base["clock_jump"] = 4
 	case "C01":
+		base["timeout_inversion"] = 2
 		base["gov"] = 5
 		base["prefix_mix"] = 3
 	case "C05":
@@ -257,6 +263,11 @@ func (g *Gen) Step() {
 		in := Intent{T: "user_send", U: u, Chain: t.Chain, Denom: t.Denom, Amt: g.amount(max), Fee: g.fee(), Net: g.net()}
 		if g.R.Intn(3) == 0 {
 			in.Dest = "u" + strconv.Itoa(g.R.Intn(len(w.Users)))
+		}
+		if g.R.Intn(20) == 0 {
+			// an ordinary user pays into the chain's governance cold-storage address (any address is a valid recipient)
+			in.Dest = ColdStorage[t.Chain]
+			w.St.Probe("user-send-to-cold-storage-address")
 		}
 		if g.R.Intn(8) == 0 {
 			in.N = 2 + g.R.Intn(2) // several withdrawals in one transaction
@@ -631,6 +642,14 @@ func (g *Gen) Step() {
 			// the same accounts and keys in another admissible spelling (upper-case bech32, other hex case)
 			in.Mut = []string{"orch_upper", "orch_upper", "val_upper", "ext_lower", "ext_upper"}[g.R.Intn(5)]
 		}
+		if g.Profile != "C17" || g.R.Intn(6) == 0 {
+			if g.Profile != "C17" {
+				in.Op = []string{"fresh", "fresh", "rotate_orch", "xchain"}[g.R.Intn(4)]
+			}
+			if g.R.Intn(2) == 0 {
+				in.Mut = "then_fail"
+			}
+		}
 		g.emit(in)
 	case "export_import":
 		g.emit(Intent{T: "export_import", Op: []string{"", "compare", "compare"}[g.R.Intn(3)]})
@@ -648,6 +667,8 @@ func (g *Gen) Step() {
 		g.xchainExpire()
 	case "valset_lag":
 		g.valsetLag()
+	case "timeout_inversion":
+		g.timeoutInversion()
 	case "gov":
 		// a proposal, yes votes of every validator, then the voting period passes
 		t := g.token()
@@ -727,6 +748,68 @@ func (g *Gen) Step() {
 
 // batchRace drives one chain into the states the batch properties are about: several tokens with several
 // pending batches each, confirmed, then executed in an arbitrary order (newest first, a middle one, …).
+// timeoutInversion: the external chain stands still while the hub goes on (the hub's projection of the external height
+// runs ahead), a batch is built with a timeout from that projection; then the chain's real, lower height is
+// observed and a second batch of the same token gets an EARLIER timeout than the first. The chain then moves past
+// the newer batch's timeout only: the older batch is still executable.
+func (g *Gen) timeoutInversion() {
+	w := g.W
+	ch := []string{"ethereum", "bsc"}[g.R.Intn(2)]
+	var toks []TokenCfg
+	for _, t := range w.Cfg.Tokens {
+		if t.Chain == ch {
+			toks = append(toks, t)
+		}
+	}
+	if len(toks) == 0 || w.Eth[ch] == nil {
+		return
+	}
+	t := toks[g.R.Intn(len(toks))]
+	w.St.Probe("timeout-inversion-scenario")
+	pollAll := func() {
+		for v := range w.Vals {
+			g.emit(Intent{T: "orch_poll", V: v, Chain: ch, N: 10})
+		}
+		g.emit(Intent{T: "block", Dt: 5, N: 1})
+	}
+	pollAll()
+	if !w.Stalled[ch] {
+		g.emit(Intent{T: "stall", Chain: ch, Op: "on"})
+	}
+	g.emit(Intent{T: "block", Dt: 5, N: 6 + g.R.Intn(20)})
+	max := new(big.Int).Quo(bigOf(w.Cfg.UserFunds), big.NewInt(200))
+	g.emit(Intent{T: "user_send", U: g.R.Intn(len(w.Users)), Chain: ch, Denom: t.Denom, Amt: g.amount(max), Fee: g.fee()})
+	g.emit(Intent{T: "block", Dt: 5, N: 2})
+	// the real (low) height becomes known to the hub
+	g.emit(Intent{T: "ext_deposit", U: g.R.Intn(len(w.Users)), Chain: ch, Chain2: "hub", Denom: t.Denom, Amt: g.amount(new(big.Int).Mul(pow10(t.Decimals), big.NewInt(10))), Fee: "0"})
+	pollAll()
+	g.emit(Intent{T: "user_send", U: g.R.Intn(len(w.Users)), Chain: ch, Denom: t.Denom, Amt: g.amount(max), Fee: g.fee()})
+	g.emit(Intent{T: "block", Dt: 5, N: 2})
+	// move the chain just past the earliest timeout among this token's pending batches
+	var lo, hi uint64
+	for _, b := range w.ReadState().Batches(ch) {
+		if b.ExternalTokenId != t.ExtID {
+			continue
+		}
+		if lo == 0 || b.Timeout < lo {
+			lo = b.Timeout
+		}
+		if b.Timeout > hi {
+			hi = b.Timeout
+		}
+	}
+	if lo > 0 && hi > lo+1 {
+		w.St.Probe("older-batch-with-later-timeout")
+	}
+	if lo >= w.Eth[ch].Height {
+		g.emit(Intent{T: "ext_tick", Chain: ch, N: int(lo-w.Eth[ch].Height) + 1})
+	}
+	g.emit(Intent{T: "ext_deposit", U: g.R.Intn(len(w.Users)), Chain: ch, Chain2: "hub", Denom: t.Denom, Amt: g.amount(new(big.Int).Mul(pow10(t.Decimals), big.NewInt(10))), Fee: "0"})
+	pollAll()
+	g.emit(Intent{T: "block", Dt: 5, N: 2})
+	g.emit(Intent{T: "stall", Chain: ch, Op: "off"})
+}
+
 // valsetLag: the relayers are away while the bonded power moves by more than 5 % two or three times: several signer-set
 // updates are pending (and confirmed) at once and grow older than the signed-signer-sets window before anybody
 // relays them; then the relayers come back.
@@ -1097,6 +1180,19 @@ func (g *Gen) sizeBurst() {
 			f = x.Add(x, big.NewInt(int64(g.R.Intn(3)))).String() // low 128 bits nearly zero: below every ordinary fee if truncated
 		}
 		g.emit(Intent{T: "user_send", U: u, Chain: t.Chain, Denom: t.Denom, Amt: "1000", Fee: f, Net: "seq" + strconv.Itoa(i/len(w.Users))})
+	}
+	if len(w.Vals) >= 2 && g.R.Intn(2) == 0 {
+		// in the same block, after the large write set: key registrations that are rejected half way through their
+		// look-ups (address / orchestrator in use) and accepted ones, followed by more writes
+		for k := 1 + g.R.Intn(2); k > 0; k-- {
+			v := g.R.Intn(len(w.Vals))
+			o := (v + 1 + g.R.Intn(len(w.Vals)-1)) % len(w.Vals)
+			g.emit(Intent{T: "set_keys", V: v, Chain: t.Chain, Op: []string{"steal_ext_key", "steal_ext_key", "steal_orch", "fresh"}[g.R.Intn(4)], Pick: o})
+		}
+		for k := 1 + g.R.Intn(3); k > 0; k-- {
+			g.emit(Intent{T: "user_send", U: g.R.Intn(len(w.Users)), Chain: t.Chain, Denom: t.Denom, Amt: "1000", Fee: fee, Net: "seq" + strconv.Itoa(n/len(w.Users)+1+k)})
+		}
+		w.St.Probe("size_burst_with_key_registration")
 	}
 	w.St.Probe("size_burst")
 }
